@@ -55,8 +55,32 @@ def main():
     ck = engine.Check(pid, prog, tier=a.tier, seed=seed, level=level)
     ck.facts_dir = fdir
     mod.run(ck)
-    if a.tier == "thorough" and hasattr(mod, "run_thorough"):
-        mod.run_thorough(ck)
+    if a.tier == "thorough" and not a.facts:
+        # (1) the same rules on the release configuration (no overflow checks, no debug assertions: different MIR)
+        try:
+            rdir, rinfo = extract.ensure_facts("release")
+        except extract.ExtractError as e:
+            print("ERROR %s" % e)
+            return 2
+        dev_prog = ck.prog
+        ck.begin_config("release", facts.Program(rdir))
+        mod.run(ck)
+        ck.prog = dev_prog
+        info = dict(info, release=rinfo)
+        if hasattr(mod, "run_thorough"):
+            mod.run_thorough(ck)
+        # (2) self-validation of the rules on the current tree: every breaking variant of the kit must be reported by the
+        # named rule and every benign variant must stay silent.  Only meaningful when the tree itself passes; the result is
+        # evidence about the checker, never a property violation.
+        if not ck.failed() and not a.replay:
+            import variants
+            jobs = int(os.environ.get("VERIF_JOBS", "8"))
+            n_ok, n_bad, lines, n_skip = variants.run_kit(pid, verbose=False, jobs=jobs)
+            ck.extra["selftest"] = {"variants_ok": n_ok, "variants_bad": n_bad, "variants_skipped": n_skip, "report": [l[:300] for l in lines]}
+            print("selftest %s: %d variant expectation(s) met, %d not met, %d skipped" % (pid, n_ok, n_bad, n_skip))
+            for l in lines:
+                if l.startswith("BAD"):
+                    print("  SELFTEST " + l[:300])
     if a.replay:
         with open(a.replay) as fh:
             want = {(o["rule"], o["key"]) for o in json.load(fh).get("failed", [])}
